@@ -990,7 +990,8 @@ def _mask(sig, num_args, hide_args, hide_kwargs,
             else:
                 src.pop(kwarg_name, None)
             if varargs:
-                src.pop(varargs.name, None)
+                if varargs.name not in kwoargs:
+                    src.pop(varargs.name, None)
                 varargs = None
             pokargs_by_name = dict((p.name, p) for p in pokargs)
         elif kwarg_name in kwoargs:
